@@ -142,3 +142,6 @@ func vDirSizes(dir string) []int64 {
 	sort.Slice(sizes, func(i, j int) bool { return sizes[i] < sizes[j] })
 	return sizes
 }
+
+// TestVerifNothing exists so that `./check setup` can build the harness.
+func TestVerifNothing(t *testing.T) {}
